@@ -1,5 +1,5 @@
 import ZapVerif.Drv.CoreIO
-import ZapVerif.Drv.C10
+import ZapVerif.Drv.DeliverOp
 namespace ZapVerif.Drv.C06
 open Lean ZapVerif ZapVerif.Drv ZapVerif.Cores ZapVerif.Drv.CoreIO
 
@@ -21,7 +21,7 @@ def countById (ids : List Nat) : List (Nat × Nat) :=
 
 /-- op "failterm": a terminal-level call over cores whose sinks fail (Model/Deliver.ceWrite) -/
 def handleFail (op : Json) : R Json := do
-  let c ← ZapVerif.Drv.C10.parseCore (← fld op "core")
+  let c ← ZapVerif.Drv.DeliverOp.parseCore (← fld op "core")
   let l := intD op "l" 0
   let after := l == 4 || l == 5 || (l == 3 && boolD op "dev" false)
   let evs := Deliver.ceWrite c after
